@@ -2,8 +2,9 @@
    (Spec/MetaTree.v) on the writer programs of harness/src/ext_xg.rs.
 
    METAWM <program tokens as for METAW> ORACLE <oracle tokens>
-     builds the [file_meta] the writer holds at E57Writer::finalize for this program and prints
-        <hex of gen_root | eInvalid | P> | <dump of the file_meta, format of ext_xg.rs dump_meta> | <dump of tree_of>
+     builds the [file_meta] the writer holds at E57Writer::finalize for this program (W) and the metadata
+     the caller asked for (M; differs from W only in incomplete DEFAULT limits, see [build]) and prints
+        <hex of gen_root W | eInvalid | P> | <dump of M, format of ext_xg.rs dump_meta> | <dump of tree_of M>
      The program must contain only commands that succeeded on the implementation (the check script
      removes the others).  Oracle tokens (everything the model does not compute):
         LV <s>                      the crate version (CARGO_PKG_VERSION)
@@ -251,7 +252,15 @@ let rec split_at (key : string) (l : string list) (acc : string list) : string l
 
 let rec take_n n l = if n = 0 then ([], l) else match l with x :: r -> let (a, b) = take_n (n - 1) r in (x :: a, b) | [] -> failwith "program too short"
 
-let build (toks : string list) : MetaFile.file_meta =
+let il_complete (l : intensity_limits) = l.il_min <> None && l.il_max <> None
+let cl_complete (l : color_limits) =
+  l.cl_red_min <> None && l.cl_red_max <> None && l.cl_green_min <> None && l.cl_green_max <> None
+  && l.cl_blue_min <> None && l.cl_blue_max <> None
+
+(* returns (the value the writer holds, the metadata the caller asked for): they differ only in the
+   DEFAULT limits the writer derives from the prototype - when these are incomplete (a float record
+   without minimum/maximum) the writer holds them but never writes them and the caller never set them *)
+let build (toks : string list) : MetaFile.file_meta * MetaFile.file_meta =
   let (prog, oracle) = split_at "ORACLE" toks [] in
   Hashtbl.reset ftab64; Hashtbl.reset ftab32;
   let version = ref [] in
@@ -269,7 +278,7 @@ let build (toks : string list) : MetaFile.file_meta =
   orc oracle;
   let guid, rest = match prog with "G" :: g :: r -> (unstr g, r) | _ -> failwith "program must start with G" in
   let cm = ref None and cr = ref None in
-  let exts = ref [] and pcs = ref [] and imgs = ref [] in
+  let exts = ref [] and pcs = ref [] and pcs_exp = ref [] and imgs = ref [] in
   let find_rec proto n = Stdlib.List.find_opt (fun r -> r.r_name = n) proto in
   let rec top l = match l with
     | [] -> ()
@@ -298,6 +307,7 @@ let build (toks : string list) : MetaFile.file_meta =
                      pc_sensor_vendor = None; pc_sensor_model = None; pc_sensor_serial = None;
                      pc_sensor_hw_version = None; pc_sensor_sw_version = None; pc_sensor_fw_version = None;
                      pc_temperature = None; pc_humidity = None; pc_atmospheric_pressure = None } in
+      let il_set = ref false and cl_set = ref false in
       let rec inpc l = match l with
         | "PN" :: s :: r -> pc := { !pc with pc_name = unstro s }; inpc r
         | "PD" :: s :: r -> pc := { !pc with pc_description = unstro s }; inpc r
@@ -316,10 +326,11 @@ let build (toks : string list) : MetaFile.file_meta =
         | "PTE" :: t :: r -> pc := { !pc with pc_temperature = o64 t }; inpc r
         | "PHU" :: t :: r -> pc := { !pc with pc_humidity = o64 t }; inpc r
         | "PAP" :: t :: r -> pc := { !pc with pc_atmospheric_pressure = o64 t }; inpc r
-        | "PIL" :: "-" :: r -> pc := { !pc with pc_intensity_limits = None }; inpc r
-        | "PIL" :: "+" :: a :: b :: r -> pc := { !pc with pc_intensity_limits = Some { il_min = parse_lim a; il_max = parse_lim b } }; inpc r
-        | "PCL" :: "-" :: r -> pc := { !pc with pc_color_limits = None }; inpc r
+        | "PIL" :: "-" :: r -> il_set := true; pc := { !pc with pc_intensity_limits = None }; inpc r
+        | "PIL" :: "+" :: a :: b :: r -> il_set := true; pc := { !pc with pc_intensity_limits = Some { il_min = parse_lim a; il_max = parse_lim b } }; inpc r
+        | "PCL" :: "-" :: r -> cl_set := true; pc := { !pc with pc_color_limits = None }; inpc r
         | "PCL" :: "+" :: a :: b :: c :: d :: e :: f :: r ->
+          cl_set := true;
           pc := { !pc with pc_color_limits = Some { cl_red_min = parse_lim a; cl_red_max = parse_lim b; cl_green_min = parse_lim c;
                                                     cl_green_max = parse_lim d; cl_blue_min = parse_lim e; cl_blue_max = parse_lim f } }; inpc r
         | "PP" :: n :: r -> let (_, r) = take_n (int_of_string n) r in inpc r   (* points only move the oracle values *)
@@ -327,8 +338,20 @@ let build (toks : string list) : MetaFile.file_meta =
           (match !pcos with
            | (off, rc, cb, sb, ib) :: more ->
              pcos := more;
-             pcs := !pcs @ [{ !pc with pc_file_offset = n_of_decimal off; pc_records = n_of_decimal rc;
-                                       pc_cartesian_bounds = parse_cb cb; pc_spherical_bounds = parse_sb sb; pc_index_bounds = parse_ib ib }]
+             let w = { !pc with pc_file_offset = n_of_decimal off; pc_records = n_of_decimal rc;
+                                pc_cartesian_bounds = parse_cb cb; pc_spherical_bounds = parse_sb sb; pc_index_bounds = parse_ib ib } in
+             pcs := !pcs @ [w];
+             let il' = match w.pc_intensity_limits with Some l when not !il_set && not (il_complete l) -> None | x -> x in
+             let cl' = match w.pc_color_limits with Some l when not !cl_set && not (cl_complete l) -> None | x -> x in
+             pcs_exp := !pcs_exp @ [{ w with pc_intensity_limits = il'; pc_color_limits = cl' }];
+             (* finalize take()s every optional field: a second finalize pushes an emptied descriptor *)
+             il_set := true; cl_set := true;
+             pc := { !pc with pc_original_guids = None; pc_name = None; pc_description = None;
+                              pc_intensity_limits = None; pc_color_limits = None; pc_transform = None;
+                              pc_acquisition_start = None; pc_acquisition_end = None;
+                              pc_sensor_vendor = None; pc_sensor_model = None; pc_sensor_serial = None;
+                              pc_sensor_hw_version = None; pc_sensor_sw_version = None; pc_sensor_fw_version = None;
+                              pc_temperature = None; pc_humidity = None; pc_atmospheric_pressure = None }
            | [] -> failwith "no PCO oracle for a finalized point cloud");
           inpc r
         | _ -> l in
@@ -385,14 +408,15 @@ let build (toks : string list) : MetaFile.file_meta =
     | t :: _ -> failwith ("bad METAWM command " ^ t) in
   top rest;
   let lv = bytes_of_ascii "Rust E57 Library v" @ !version @ bytes_of_ascii " github.com/cry-inc/e57" in
-  { MetaFile.fm_root = { rt_format = bytes_of_ascii "ASTM E57 3D Imaging Data File"; rt_guid = guid;
-                         rt_major_version = BinNums.Zpos BinNums.Coq_xH; rt_minor_version = BinNums.Z0;
-                         rt_library_version = Some lv; rt_creation = !cr; rt_coordinate_metadata = !cm };
-    fm_extensions = !exts; fm_pointclouds = !pcs; fm_images = !imgs }
+  let w = { MetaFile.fm_root = { rt_format = bytes_of_ascii "ASTM E57 3D Imaging Data File"; rt_guid = guid;
+                                 rt_major_version = BinNums.Zpos BinNums.Coq_xH; rt_minor_version = BinNums.Z0;
+                                 rt_library_version = Some lv; rt_creation = !cr; rt_coordinate_metadata = !cm };
+            fm_extensions = !exts; fm_pointclouds = !pcs; fm_images = !imgs } in
+  (w, { w with MetaFile.fm_pointclouds = !pcs_exp })
 
 let run_metawm (toks : string list) : string =
-  let m = build toks in
-  let g = match XmlGen.gen_root m with
+  let (mw, m) = build toks in
+  let g = match XmlGen.gen_root mw with
     | Prelude.Ok bs -> hex_of_bytes bs
     | Prelude.Err k -> "e" ^ err_name k
     | Prelude.Panic -> "P" in
